@@ -10,7 +10,8 @@ def run(ctx):
     ok_go, ok_drv = seqlib.build_and_prove(ctx, MODULE)
     if ok_go:
         args = ["-seqs", "60", "-ops", "500", "-big"] if ctx.tier == "thorough" else ["-seqs", "10", "-ops", "400"]
-        lines, tr = seqlib.run_seq(ctx, args)
+        lines, tr = seqlib.run_seq(ctx, args + ["-locks"])
+        seqlib.two_phase(ctx, lines, ok_drv, "C02", "Under concurrency the transaction works on objects that others have changed since it read them: its replies and what it writes back are those of no sequential order")
         if lines is not None:
             seqlib.analyse(ctx, lines, tr, ok_drv, "C02", oracle_props=["C02", "C13", "C19", "C08"])
     if ok_go:
